@@ -58,3 +58,39 @@ func TestDebug(t *testing.T) {
 		fmt.Printf("PARA %c: %s\n%s branches=%v\n", p, out.String(), gspec.RenderExecs(execs), brs)
 	}
 }
+
+// TestDebugHistory: DBG_FILE witness with "spec" (plan already applied), "input"; runs an interrupt/resume history.
+func TestDebugHistory(t *testing.T) {
+	f := os.Getenv("DBG_FILE")
+	if f == "" {
+		t.Skip("no DBG_FILE")
+	}
+	b, err := os.ReadFile(f)
+	if err != nil {
+		t.Fatal(err)
+	}
+	var w struct {
+		Spec      *gspec.GraphSpec `json:"spec"`
+		Input     gspec.V          `json:"input"`
+		Paradigms []string         `json:"paradigms"`
+	}
+	if err := json.Unmarshal(b, &w); err != nil {
+		t.Fatal(err)
+	}
+	gspec.EnableInterruptHook()
+	ctx := context.Background()
+	store := gspec.NewByteStore()
+	r, err := gspec.Build(ctx, w.Spec, gspec.BuildOpts{Store: store})
+	if err != nil {
+		t.Fatal(err)
+	}
+	base := gspec.CloneSpec(w.Spec)
+	ref := gspec.EvalGraph(base, w.Input, nil)
+	fmt.Println("REF:", ref.String())
+	h := gspec.RunHistory(ctx, w.Spec, r, store, w.Input, nil, gspec.HistoryOpts{Paras: w.Paradigms, CheckPoint: true, MaxCalls: 12})
+	fmt.Println(h.Render())
+	if os.Getenv("DBG_CP") != "" {
+		bs, _, _ := store.Get(ctx, "cp")
+		fmt.Println("CHECKPOINT:", string(bs))
+	}
+}
